@@ -106,6 +106,8 @@ def oracle_logic(case, lines, insts):
             fails.append(('C12:request-never-completed', 'requests %s never completed (accepted %d, completions %s)' % (missing, accepted, done)))
     else:
         fails.append(('C12:not-quiescent', 'still transmitting at the end: %s' % split_line(lines[-1])[1]))
+    import fcrules
+    fails += fcrules.wait_budget_fails(case, lines, 'C12:failed-within-wait-budget')
     # success only for requests whose whole segmentation was produced: count frames between completions
     reqs = case['reqs']
     # map accepted requests to reqs (all sends here are accepted)
